@@ -24,7 +24,14 @@ import (
 	"verif/spec"
 )
 
-const root = "/verif"
+// root is the framework directory: the working directory run.sh started us in
+// (/verif, or a snapshot of it under vp run).
+var root = func() string {
+	if d, err := os.Getwd(); err == nil {
+		return d
+	}
+	return "/verif"
+}()
 
 type Violation struct {
 	Key string `json:"key"` // normalised witness; matched against known_findings.json
